@@ -151,7 +151,11 @@ class PauliInteractionGate(gate_features.InterchangeableQubitsGate, eigen_gate.E
         return f'({base}**{proper_repr(self._exponent)})'
 
     def _json_dict_(self) -> dict[str, Any]:
-        return protocols.obj_to_dict_helper(self, ["pauli0", "invert0", "pauli1", "invert1"])
+        result = protocols.obj_to_dict_helper(self, ["pauli0", "invert0", "pauli1", "invert1"])
+        if self._exponent != 1:
+            # Only written when non-default, so documents of the default gate are unchanged.
+            result["exponent"] = self._exponent
+        return result
 
 
 PauliInteractionGate.CZ = PauliInteractionGate(pauli_gates.Z, False, pauli_gates.Z, False)
